@@ -250,6 +250,7 @@ func (r *Run) Finish() {
 	if nviol == 0 {
 		fmt.Printf("OK property=%s tier=%s evaluations=%d distinct_nontrivial=%d states=%d wall=%.1fs\n",
 			r.Prop, r.Tier, r.evals, len(r.nontrivial), states, time.Since(r.start).Seconds())
+		Cleanup()
 		os.Exit(0)
 	}
 	dir := filepath.Join(VerifDir, "replays", r.Prop)
@@ -267,6 +268,7 @@ func (r *Run) Finish() {
 		_ = os.WriteFile(p, rb, 0o644)
 		fmt.Printf("VIOLATION property=%s replay=%s sig=%s clause=%s count=%d\n", r.Prop, p, v.Sig, v.Clause, r.newSigs[v.Sig])
 	}
+	Cleanup()
 	os.Exit(1)
 }
 
